@@ -70,6 +70,16 @@ func init() {
 		"internal/bytealg.IndexByteString": icIndexByteString,
 		"strings.IndexByte":                icIndexByteString,
 		"internal/bytealg.Count":           icCountByte,
+		"strings.NewReplacer":              icNewReplacer,
+		"(*strings.Replacer).Replace":      icReplacerReplace,
+		"(*strings.Builder).WriteString":   icBuilderWriteString,
+		"(*strings.Builder).WriteByte":     icBuilderWriteByte,
+		"(*strings.Builder).WriteRune":     icBuilderWriteRune,
+		"(*strings.Builder).Write":         icBuilderWrite,
+		"(*strings.Builder).String":        icBuilderString,
+		"(*strings.Builder).Len":           icBuilderLen,
+		"(*strings.Builder).Reset":         icBuilderReset,
+		"(*strings.Builder).Grow":          noop,
 		"strings.Contains":                 icStringsContains,
 		"strings.Replace":                  icStringsReplace,
 		"strings.ReplaceAll":               icStringsReplaceAll,
@@ -585,6 +595,150 @@ func icCountByte(fr *frame, args []value) value {
 		r = st.Add(r, st.Ite(st.Eq(v.(*Term), args[1].(*Term)), BV(1, 64), BV(0, 64)))
 	}
 	return r
+}
+
+// strings.Builder: the text built so far is kept beside the machine, keyed
+// by the address of the builder.
+func (m *Machine) builderOf(p value) *value {
+	k, _ := p.(*value)
+	if k == nil {
+		panic(pathAbort{"strings.Builder through an unsupported pointer"})
+	}
+	if m.builders == nil {
+		m.builders = map[*value]*value{}
+	}
+	b := m.builders[k]
+	if b == nil {
+		var v value = ""
+		b = &v
+		m.builders[k] = b
+	}
+	return b
+}
+
+func icBuilderWriteString(fr *frame, args []value) value {
+	b := fr.m.builderOf(args[0])
+	*b = concatStr(*b, args[1])
+	n := BV(0, 64)
+	switch s := args[1].(type) {
+	case string:
+		n = BV(uint64(len(s)), 64)
+	case *SymStr:
+		n = fr.m.strLen(s)
+	}
+	return tuple{n, iface{}}
+}
+
+func icBuilderWriteByte(fr *frame, args []value) value {
+	b := fr.m.builderOf(args[0])
+	*b = concatStr(*b, bytesToStr([]value{args[1]}))
+	return iface{}
+}
+
+func icBuilderWriteRune(fr *frame, args []value) value {
+	r := args[1].(*Term)
+	if !r.IsConst() {
+		panic(pathAbort{"strings.Builder.WriteRune with a symbolic rune"})
+	}
+	b := fr.m.builderOf(args[0])
+	txt := string(rune(sext64(r.c, 32)))
+	*b = concatStr(*b, txt)
+	return tuple{BV(uint64(len(txt)), 64), iface{}}
+}
+
+func icBuilderWrite(fr *frame, args []value) value {
+	b := fr.m.builderOf(args[0])
+	bs, _ := args[1].([]value)
+	*b = concatStr(*b, bytesToStr(bs))
+	return tuple{BV(uint64(len(bs)), 64), iface{}}
+}
+
+func icBuilderString(fr *frame, args []value) value { return *fr.m.builderOf(args[0]) }
+
+func icBuilderLen(fr *frame, args []value) value {
+	switch s := (*fr.m.builderOf(args[0])).(type) {
+	case string:
+		return BV(uint64(len(s)), 64)
+	case *SymStr:
+		return fr.m.strLen(s)
+	}
+	return BV(0, 64)
+}
+
+func icBuilderReset(fr *frame, args []value) value {
+	*fr.m.builderOf(args[0]) = ""
+	return nil
+}
+
+// strings.NewReplacer / Replace for single-byte old strings whose
+// replacements contain none of the old bytes: one pass over the string, each
+// symbolic byte forks on which old byte it is.
+type replacerObj struct{ olds, news []string }
+
+func icNewReplacer(fr *frame, args []value) value {
+	var r replacerObj
+	vs := variadic(args[0])
+	if len(vs)%2 != 0 {
+		fr.tpanic("strings.NewReplacer: odd argument count")
+	}
+	for i := 0; i < len(vs); i += 2 {
+		o, ok1 := vs[i].(string)
+		n, ok2 := vs[i+1].(string)
+		if !ok1 || !ok2 {
+			panic(pathAbort{"strings.NewReplacer with symbolic arguments"})
+		}
+		r.olds = append(r.olds, o)
+		r.news = append(r.news, n)
+	}
+	return &opaque{kind: "replacer", data: &r}
+}
+
+func icReplacerReplace(fr *frame, args []value) value {
+	o, _ := args[0].(*opaque)
+	if o == nil {
+		fr.tpanic("invalid memory address or nil pointer dereference (nil Replacer)")
+	}
+	r := o.data.(*replacerObj)
+	if cs, ok := args[1].(string); ok {
+		var on []string
+		for i := range r.olds {
+			on = append(on, r.olds[i], r.news[i])
+		}
+		return strings.NewReplacer(on...).Replace(cs)
+	}
+	for _, old := range r.olds {
+		if len(old) != 1 {
+			panic(pathAbort{"strings.Replacer with a multi-byte pattern on a symbolic string"})
+		}
+	}
+	var lit []string
+	for i := range r.olds {
+		lit = append(lit, r.olds[i], r.news[i])
+	}
+	conc := strings.NewReplacer(lit...)
+	var out []strPart
+	st := fr.m.st()
+	for _, p := range partsOf(args[1]) {
+		switch p.kind {
+		case "":
+			out = append(out, litPart(conc.Replace(p.lit)))
+		case "byte":
+			done := false
+			for i, old := range r.olds {
+				if fr.m.branch(st.Eq(p.args[0], BV(uint64(old[0]), 8))) {
+					out = append(out, litPart(r.news[i]))
+					done = true
+					break
+				}
+			}
+			if !done {
+				out = append(out, p)
+			}
+		default:
+			panic(pathAbort{"strings.Replacer on a string with opaque part " + p.kind})
+		}
+	}
+	return mkStr(out)
 }
 
 // replaceAllModel implements strings.Replace(s, old, new, -1) for a
